@@ -7,3 +7,4 @@ import Pdpy11.Props.C06
 import Pdpy11.Props.C01
 import Pdpy11.Props.C13
 import Pdpy11.Props.C19
+import Pdpy11.Props.C05
